@@ -23,6 +23,11 @@ for pid in ALL:
                                "are not built in this snapshot (planned, see DESIGN.md section 5)"})
         continue
     P = importlib.import_module(pid.lower())
+    if not getattr(P, "THEOREMS", None) or getattr(P, "NOT_CLAIMED", None):
+        not_applicable.append({"property_id": pid, "reason": getattr(P, "NOT_CLAIMED", None) or
+                               "not claimed yet: model and correspondence check exist (./check %s runs the differential), but no theorem "
+                               "is proved yet, so nothing is claimed at proof level in this snapshot" % pid})
+        continue
     checks.append({
         "property_id": pid,
         "quick_cmd": "./check %s --tier quick" % pid,
